@@ -79,9 +79,9 @@ PROPS = {
              "non-zero (update step), a split strictly inside the buffer, or a word buffer; distinct by value",
         assumptions=COMMON_ASSUME,
         targets=[
-            enum("enum", ["props/C16_enum.cpp"], qs=8, ts=16),
-            vg(["props/C16_enum.cpp"]), dbg(["props/C16_enum.cpp"]),
-            enum("fast", ["props/C16_enum.cpp"], qs=0, ts=16, lib="fast", cxxflags=["-DVP_FAST", "-O2"]),
+            enum("enum", ["props/C16_enum.cpp", "shims/crc_callers.c"], qs=8, ts=16),
+            vg(["props/C16_enum.cpp", "shims/crc_callers.c"]), dbg(["props/C16_enum.cpp", "shims/crc_callers.c"]),
+            enum("fast", ["props/C16_enum.cpp", "shims/crc_callers.c"], qs=0, ts=16, lib="fast", cxxflags=["-DVP_FAST", "-O2"]),
         ],
     ),
     "C14": dict(
